@@ -26,7 +26,8 @@ Main entry points
     gen_type(rng, depth, ...)            one valid complete type
     gen_types(rng, depth, max_n)         a signature (list of types)
     gen_variant_type(rng, depth)         a type that txdbus's inference can produce for a variant's content
-    gen_spec(rng, ty, depth)             a spec value (boundary values favoured)
+    gen_spec(rng, ty, depth)             a spec value (boundary values favoured) that `to_python` can spell
+    gen_spec_free(rng, ty, depth)        a spec value with arbitrarily typed variants (for decoders)
     gen_value(rng, ty)                   = to_python(rng, ty, gen_spec(rng, ty))
     to_python(rng, ty, sv, fds=None)     Python spelling; descriptors met are appended to `fds` in wire order
     BOUNDARY[code]                       boundary spec values per basic type
@@ -278,6 +279,33 @@ def _len(rng, depth):
     return rng.choice([0, 0, 1, 1, 2, 3, 5] if depth > 0 else [0, 1, 2])
 
 
+def gen_spec_free(rng, ty, depth=3):
+    """A spec value whose variants hold ANY valid single complete type (also typings that txdbus's own
+    encoder never produces: empty arrays of a concrete type, descriptors, variants in variants) - for
+    decoders fed by another implementation.  Not spellable through `to_python` in general."""
+    if isinstance(ty, str):
+        if ty == 'v':
+            vt = gen_type(rng, max(depth - 1, 0))
+            return ('V', vt, gen_spec_free(rng, vt, depth - 1))
+        return gen_basic(rng, ty)
+    if ty[0] == 'a':
+        el = ty[1]
+        n = _len(rng, depth)
+        if not isinstance(el, str) and el[0] == '{':
+            out, seen = [], []
+            for _ in range(n):
+                k = gen_basic(rng, el[1])
+                if any(_key_eq(k, s) for s in seen) or (el[1] == 'd' and k != k):
+                    continue
+                seen.append(k)
+                out.append((k, gen_spec_free(rng, el[2], depth - 1)))
+            return out
+        return [gen_spec_free(rng, el, depth - 1) for _ in range(n)]
+    if ty[0] == '(':
+        return [gen_spec_free(rng, f, depth - 1) for f in ty[1]]
+    return (gen_basic(rng, ty[1]), gen_spec_free(rng, ty[2], depth - 1))
+
+
 def gen_spec(rng, ty, depth=3, in_variant=False):
     """A spec value of type `ty`.  `in_variant`: the value will be spelt for txdbus's inference, so the
     containers whose element type the inference reads off the first element must not be empty (except
@@ -367,10 +395,12 @@ def _m():
 class DbusOrderStruct:
     """A struct given as an object that declares its field order."""
 
-    def __init__(self, fields):
+    def __init__(self, fields, sig=None):
         self.dbusOrder = ['f%d' % i for i in range(len(fields))]
         for a, f in zip(self.dbusOrder, fields):
             setattr(self, a, f)
+        if sig is not None:
+            self.dbusSignature = sig          # lets the object stand inside a variant
 
     def __repr__(self):
         return 'DbusOrderStruct(%r)' % ([getattr(self, a) for a in self.dbusOrder],)
@@ -452,6 +482,8 @@ def to_python(rng, ty, sv, fds=None, in_variant=False):
         return xs if rng.random() < 0.75 else tuple(xs)
     if ty[0] == '(':
         xs = [to_python(rng, f, e, fds, 'top' if in_variant else False) for f, e in zip(ty[1], sv)]
+        if in_variant == 'top' and rng.random() < 0.25:
+            return DbusOrderStruct(xs, render(ty))
         if in_variant:
             return tuple(xs)
         r = rng.random()
